@@ -179,12 +179,16 @@ pub fn exec(case: &str) -> Exec {
             let gz = spec.map_or(name.to_ascii_lowercase().ends_with(".gz"), |s| s.1);
             let data = if gz { let mut e = flate2::write::GzEncoder::new(Vec::new(), flate2::Compression::fast()); e.write_all(&bytes).unwrap(); e.finish().unwrap() } else { bytes.clone() };
             if std::fs::write(&path, &data).is_err() { return ex; }
-            let by_path = guarded(|| { let mut o = ReadOptions::default(); o.set_level(StrictnessLevel::Loose); if decompress_flag { o.set_decompress(true); } o.read(&path) });
+            // the option set is derived from the content so that a case replays the same way
+            let fl = bytes.len() % 8;
+            let (dh, fm, ac) = (fl & 1 != 0, fl & 2 != 0, fl & 4 != 0);
+            ex.tags.push(format!("open-flags:{}{}{}", b(dh), b(fm), b(ac)));
+            let by_path = guarded(|| { let mut o = ReadOptions::default(); o.set_level(StrictnessLevel::Loose).set_discard_hydrogens(dh).set_only_first_model(fm).set_only_atomic_coords(ac); if decompress_flag { o.set_decompress(true); } o.read(&path) });
             let _ = std::fs::remove_file(&path);
             if let Some(c) = &cwd { let _ = std::env::set_current_dir(c); }
             let _ = std::fs::remove_dir(&dir);
             let feats = |f: Failure| f.feat("name", &name).feat("content", &content).feat("relative", relative);
-            let o = Opts { level: StrictnessLevel::Loose, discard_h: false, first_only: false, atomic_only: false };
+            let o = Opts { level: StrictnessLevel::Loose, discard_h: dh, first_only: fm, atomic_only: ac };
             ex.req = format!("c15 guess {}", enc_str(&name));
             match by_path {
                 Err(m) => { ex.resp = "PANIC".into(); ex.failures.push(feats(Failure::new("open-by-path-panicked", m))); }
